@@ -501,6 +501,8 @@ def _confusable(a, b):
             continue
         if {x, y} <= rel:
             continue
+        if x not in genprog.SCALARS and y not in genprog.SCALARS:
+            continue  # two reference parameters: `null` (and, for related classes, one object) fits both
         return False
     return True
 
